@@ -603,7 +603,10 @@ def slerp(q0, q1, s, shortest=False):
     if abs(theta) > 10 * _eps:
         s0 = math.sin((1 - s) * theta)
         s1 = math.sin(s * theta)
-        return ((q0 * s0) + (q1 * s1)) / math.sin(theta)
+        # for unit quaternions the combination has length sin(theta): normalise it
+        # rather than divide by sin(theta), which loses the unit norm as theta -> pi
+        q = (q0 * s0) + (q1 * s1)
+        return q / base.norm(q)
     else:
         # quaternions are identical
         return q0
